@@ -325,7 +325,25 @@ func parseBlock(nativeBlock *hclsyntax.Block, from, leadComments, lineComments, 
     // before we actually append the closing brace and any straggling tokens
     // that appear after it.
     bodyTokens, cBrace, from := from.Partition(nativeBlock.CloseBraceRange)
+    singleLine := singleLineBody(bodyTokens.nativeTokens)
+    // A single-line comment that follows the opening brace on the same line
+    // ends that line, so it stays with the brace. Otherwise it would become a
+    // lead comment of the first item in the body, and removing that item would
+    // join the next item onto the brace's line.
+    braceLine := 0
+    for braceLine < bodyTokens.Len() && bodyTokens.nativeTokens[braceLine].Type == hclsyntax.TokenComment {
+        tokBytes := bodyTokens.nativeTokens[braceLine].Bytes
+        braceLine++
+        if len(tokBytes) > 0 && tokBytes[len(tokBytes)-1] == '\n' {
+            children.AppendUnstructuredTokens(bodyTokens.Slice(0, braceLine).Tokens())
+            bodyTokens = bodyTokens.Slice(braceLine, bodyTokens.Len())
+            break
+        }
+    }
     before, body, after := parseBody(nativeBlock.Body, bodyTokens)
+    if singleLine {
+        body.content.(*Body).singleLineOpen = block.open
+    }
     children.AppendUnstructuredTokens(before.Tokens())
     block.body = body
     children.AppendNode(body)
@@ -343,6 +361,25 @@ func parseBlock(nativeBlock *hclsyntax.Block, from, leadComments, lineComments, 
     children.AppendUnstructuredTokens(newline.Tokens())
 
     return newNode(block)
+}
+
+// singleLineBody reports whether the tokens between a block's braces belong
+// to the single-line block form, that is whether something other than the end
+// of the line (inline comments aside) follows the opening brace.
+func singleLineBody(toks hclsyntax.Tokens) bool {
+    for _, tok := range toks {
+        switch tok.Type {
+        case hclsyntax.TokenNewline:
+            return false
+        case hclsyntax.TokenComment:
+            if len(tok.Bytes) > 0 && tok.Bytes[len(tok.Bytes)-1] == '\n' {
+                return false
+            }
+        default:
+            return true
+        }
+    }
+    return true
 }
 
 func parseBlockLabels(nativeBlock *hclsyntax.Block, from inputTokens) (inputTokens, *node, inputTokens) {
